@@ -608,6 +608,14 @@ def gen_spec(rng, fmt=None, maxn=5, maxt=4, small=False):
               for n in (3, 5)}
         while spec['nvars'] == 3 and (spec['nt'] * ts[3]) % ts[5] == 0:
             spec['nt'] += 1
+        if spec['nvars'] == 5 and rng.random() < 0.3:
+            # a 5-variable file whose size is ALSO a whole number of
+            # 3-variable steps: the documented reading is the contemporary
+            # 5-variable one
+            import math
+            k = ts[3] // math.gcd(ts[3], ts[5])
+            if k <= 30:
+                spec['nt'] = k
     elif fmt == 'landuse':
         spec['nt'] = 1
         spec['newstyle'] = bool(rng.random() < 0.5)
@@ -615,4 +623,9 @@ def gen_spec(rng, fmt=None, maxn=5, maxt=4, small=False):
             rng.choice([11, 26]))
         spec['nrec'] = int(rng.integers(1, 4)) if spec['newstyle'] else int(
             rng.integers(1, 3))
+    # (format-specific step counts may have changed nt) stay inside the
+    # 1970-2069 two-digit-year window
+    if spec['sdate'] // 1000 == 2069 and spec['sdate'] % 1000 + (
+            spec['nt'] * spec['dhour'] + spec['shour']) // 24 > 364:
+        spec['sdate'] = 2069001
     return spec
